@@ -23,12 +23,13 @@ type ClientServerStream struct {
 	headerM sync.Mutex    // guards closing of headerC
 	headerC chan struct{} // closed once calls to clientStream.Header should return
 
-	serverSend chan any
-	clientSend chan any
-	trailer    metadata.MD
-	closed     context.CancelFunc
-	closeM     sync.Mutex // guards closeErr
-	closeErr   error
+	serverSend  chan any
+	clientSend  chan any
+	trailer     metadata.MD
+	closed      context.CancelFunc
+	closeM      sync.Mutex // guards closeErr and closeCalled
+	closeErr    error
+	closeCalled bool
 }
 
 func NewClientServerStream(ctx context.Context) *ClientServerStream {
@@ -62,6 +63,7 @@ func (s *ClientServerStream) Close(err error) {
 	}
 	s.closeM.Lock()
 	s.closeErr = err
+	s.closeCalled = true
 	s.closeM.Unlock()
 	close(s.serverSend)
 	simhook.Yield("wrap.close.cancel")
@@ -76,6 +78,13 @@ func (s *ClientServerStream) closeErrLocked() error {
 	s.closeM.Lock()
 	defer s.closeM.Unlock()
 	if s.closeErr == nil {
+		if !s.closeCalled {
+			// the handler has not returned: the stream's context ended because the caller cancelled the call or its
+			// deadline passed, and that - not a clean end of stream - is what both sides are told
+			if ctxErr := s.parent.Err(); ctxErr != nil {
+				return status.FromContextError(ctxErr).Err()
+			}
+		}
 		return io.EOF
 	}
 	return s.closeErr
